@@ -16,8 +16,10 @@
 /* The serialized seed. The contents are platform-independent. */
 typedef uint8_t polyseed_storage[POLYSEED_SIZE];
 
-/* The maximum possible length of a mnemonic phrase */
-#define POLYSEED_STR_SIZE 360
+/* The maximum possible length of a mnemonic phrase, including the terminator:
+   16 words of up to 33 bytes (Korean, decomposed form used internally)
+   + 15 separators + 1 */
+#define POLYSEED_STR_SIZE 544
 
 /* Mnemonic phrase buffer */
 typedef char polyseed_str[POLYSEED_STR_SIZE];
